@@ -128,6 +128,7 @@ VALUES = {
     "s": " <a&b>\"'é ",
     "i": 42,
     "p": "plain",
+    "z": None,  # h is markupsafe.escape: None comes out as the text 'None', like any other object
 }
 EFILTERS = ["h", "x", "u", "trim", "entity", "str", "unicode", "decode.utf8", "n", "f", "g", "cf", "mk('|')", "mk(a=1)",
             # brace literals as arguments of a filter call: the filter list does not end at their closing brace
@@ -390,7 +391,7 @@ def gen_cases(tier, seed):
         for P in PAGES:
             items = []
             for E in lists:
-                for vname in ("s", "i", "p") if len(E) <= 2 else (r.choice(["s", "i", "p"]),):
+                for vname in ("s", "i", "p", "z") if len(E) <= 2 else (r.choice(["s", "i", "p", "z"]),):
                     items.append([E, vname])
                     if len(items) >= 60:
                         yield {"kind": "pipelines", "D": D, "P": P, "items": items}
